@@ -73,7 +73,7 @@ class C11(Prop):
     rule = ("soc / toc instances with 1-6 alternatives (ties at the top, complete indifference, planted single-peaked "
             "and perturbed profiles); all axes for m <= 4, 6 random axes otherwise; ILP on ~1/6 of the cases; all "
             "four functions on soi/toi for the guards; non-trivial = >= 2 orders and >= 3 alternatives")
-    budget = {"quick": 240, "thorough": 6000}
+    budget = {"quick": 600, "thorough": 6000}
     anchors = [("preflibtools.properties.subdomains.ordinal.singlepeaked.singlepeakedness", n) for n in
                ("is_single_peaked_axis", "sp_cons_ones_matrix", "is_single_peaked_pq_tree", "is_single_peaked_ILP",
                 "sp_ILP_trans_cstr", "sp_ILP_total_cstr", "sp_ILP_pos_cstr", "sp_ILP_cons_ones_cstr")] + \
@@ -123,7 +123,12 @@ class C11(Prop):
                     seen.add(repr(o))
                     uniq.append(o)
             t = gen.infer_type([tuple(map(tuple, o)) for o in uniq], m)
-            yield {"kind": "sp", "type": t, "alts": store, "orders": uniq, "ilp": i % 6 == 0}
+            c = {"kind": "sp", "type": t, "alts": store, "orders": uniq, "ilp": i % 6 == 0}
+            if rng.random() < 0.3:
+                c["mults"] = [rng.choice([1, 2, 3, 5, 17, 100]) for _ in uniq]
+            if not c["ilp"] and len(uniq) >= 2 and rng.random() < 0.25:
+                c["grow"] = True        # built through the append_* entry points, queried once half-way
+            yield c
 
     def _axes(self, case):
         import random
@@ -135,8 +140,17 @@ class C11(Prop):
 
     def run_impl(self, case):
         from preflibtools.properties.subdomains.ordinal.singlepeaked import singlepeakedness as S
-        prof = [(tuple(map(tuple, o)), 1) for o in case["orders"]]
-        mk = lambda: gen.make_ordinal(prof, alts=case["alts"], data_type=case["type"])
+        ms = case.get("mults") or [1] * len(case["orders"])
+        prof = [(tuple(map(tuple, o)), k) for o, k in zip(case["orders"], ms)]
+
+        def mk():
+            inst = None
+            if case.get("grow"):
+                def warm(i):
+                    S.is_single_peaked_pq_tree(i)
+                    S.is_single_peaked_axis(i, list(i.alternatives_name))
+                inst = gen.grown_instance(prof, case["alts"], case["type"], warm)
+            return inst or gen.make_ordinal(prof, alts=case["alts"], data_type=case["type"])
         self.count("type:" + case["type"])
         obs = {}
         if case["kind"] == "guard":
@@ -250,9 +264,14 @@ class C11(Prop):
 
     def shrink_candidates(self, case):
         os_ = case["orders"]
+        yield from gen.strict_case_shrinks(case)
+        ms = case.get("mults")
         for i in range(len(os_)):
             if len(os_) > 1:
-                yield dict(case, orders=os_[:i] + os_[i + 1:])
+                c2 = dict(case, orders=os_[:i] + os_[i + 1:])
+                if ms:
+                    c2["mults"] = ms[:i] + ms[i + 1:]
+                yield c2
         if len(case["alts"]) > 2:
             for x in case["alts"]:
                 o2 = [[[a for a in c if a != x] for c in o] for o in os_]
